@@ -292,7 +292,8 @@ variable {α : Type} [DecidableEq α] (cx : Ctx α)
 leading whitespace: it is stripped first, and the padding compensates) -/
 theorem alignLeft_length_triv (htriv : ∀ s, cx.ends s = List.range' 1 s.length) (t : List α)
     (w : Int) (h : (t.length : Int) ≤ w) : ((alignLeft cx t w).length : Int) = w := by
-  unfold alignLeft
+  simp only [alignLeft_eq_core]
+  unfold alignLeftCore
   simp only
   have hle : (if countLeadingWs cx t > 0 then gSub cx t (countLeadingWs cx t) (gLen cx t) else t).length
       ≤ t.length := by
@@ -307,7 +308,8 @@ theorem alignLeft_length_triv (htriv : ∀ s, cx.ends s = List.range' 1 s.length
 than the text -/
 theorem alignLeft_length_ge_triv (htriv : ∀ s, cx.ends s = List.range' 1 s.length) (t : List α)
     (w : Int) : w ≤ ((alignLeft cx t w).length : Int) := by
-  unfold alignLeft
+  simp only [alignLeft_eq_core]
+  unfold alignLeftCore
   simp only
   generalize (if countLeadingWs cx t > 0 then gSub cx t (countLeadingWs cx t) (gLen cx t) else t) = e
   rw [gLen_triv cx htriv, gRepeat_single_c, List.length_append, List.length_replicate]
@@ -316,7 +318,8 @@ theorem alignLeft_length_ge_triv (htriv : ∀ s, cx.ends s = List.range' 1 s.len
 /-- `AlignLineCenter` pads a text that is no longer than `w` to exactly `w` clusters -/
 theorem alignCenter_length_triv (htriv : ∀ s, cx.ends s = List.range' 1 s.length) (t : List α)
     (w : Int) (h : (t.length : Int) ≤ w) : ((alignCenter cx t w).length : Int) = w := by
-  unfold alignCenter
+  simp only [alignCenter_eq_core]
+  unfold alignCenterCore
   simp only
   have hle : (if countTrailingWs cx t > 0 then gSub cx t (countLeadingWs cx t) (-countTrailingWs cx t)
       else gSub cx t (countLeadingWs cx t) (gLen cx t)).length ≤ t.length := by
@@ -513,7 +516,8 @@ theorem makeTable_eq (htriv : ∀ s, cx.ends s = List.range' 1 s.length)
     makeTable cx data width header border charSet =
       buildTable cx data (tableColWidths data width border) (max width (tableMinWidth data border))
         header border (parseTableCharSet cx charSet) := by
-  unfold makeTable
+  simp only [makeTable_eq_core]
+  unfold makeTableCore
   rw [if_neg (by simpa using hd)]
   simp only
   rw [if_neg (by simpa [tableColCount] using hk)]
@@ -709,7 +713,8 @@ theorem makeTable_of_rows_empty (data : List (List (List α))) (width : Int) (he
     (charSet : List α) (h : ∀ r ∈ data, r = []) :
     makeTable cx data width header border charSet = [] := by
   have hk := (tableColCount_eq_zero_iff data).2 h
-  unfold makeTable
+  simp only [makeTable_eq_core]
+  unfold makeTableCore
   split
   · rfl
   · simp only
@@ -723,7 +728,8 @@ theorem makeTable_length (data : List (List (List α))) (width : Int) (header bo
         (if header = true then
           (if border = true then (if data.length > 1 then 1 else 0) else 1) else 0) := by
   have hpos : 0 < data.length := List.length_pos_iff.2 hd
-  unfold makeTable
+  simp only [makeTable_eq_core]
+  unfold makeTableCore
   rw [if_neg (by simpa using hd)]
   simp only
   rw [if_neg (by simpa [tableColCount] using hk)]
@@ -1342,7 +1348,8 @@ theorem insertDefTableOpts_triv (htriv : ∀ s, cx.ends s = List.range' 1 s.leng
       ed.insert cx pos (Block.mk
         (defTableLines cx defs width (o.withDefaults cx).lineSep (o.withDefaults cx).paraSep)
         (o.withDefaults cx).lineSep (!(o.withDefaults cx).noTrailing)).join := by
-  unfold Editor.insertDefTableOpts
+  simp only [Editor.insertDefTableOpts_eq_core]
+  unfold Editor.insertDefTableOptsCore
   simp only
   rw [foldl_longest_term cx htriv defs hne]
   generalize hT : maxLineLen (defs.map (·.1)) = T
@@ -1562,7 +1569,8 @@ theorem countLeadingWs_triv_c (htriv : ∀ s, cx.ends s = List.range' 1 s.length
 /-- at cluster level the model's `AlignLineLeft` is the specification's -/
 theorem alignLeft_triv_c (htriv : ∀ s, cx.ends s = List.range' 1 s.length) (t : List α) (w : Int) :
     alignLeft cx t w = Spec.alignLeft ⟨cx.isSpace, cx.sp, cx.hy⟩ w t := by
-  unfold alignLeft Spec.alignLeft Spec.stripLeft Spec.pad
+  simp only [alignLeft_eq_core]
+  unfold alignLeftCore Spec.alignLeft Spec.stripLeft Spec.pad
   simp only
   rw [countLeadingWs_triv_c cx htriv, gLen_triv cx htriv]
   have hdec := List.takeWhile_append_dropWhile (p := cx.isSpace) (l := t)
